@@ -67,7 +67,7 @@ def replay(d):
     if kind == 'region':
         t, p = float(num(d['t'])), float(num(d['p']))
         r67, r97 = T.region(t, p), I.region(t, p)
-        pre = (t < 350.0 or t > TC67)
+        pre = (t <= 350.0 or t > TC67)
         dist = []
         if 0.01 <= t <= 350.0: dist = [abs(p - T.sat(t)), abs(p - I.sat(t))]
         elif TC67 < t <= 590.0: dist = [abs(p - T.b23p(t)), abs(p - I.b23p(t))]
